@@ -46,6 +46,7 @@ ASYNC_EXTRAS = {
     "_execute": "async function executor splits limiter handling from execution",
     "_handle_nested_result": "PAUSED nested result conversion (interrupts are async only)",
     "PauseInfo": "interrupts are async only",
+    "is_resuming_interrupt": "a caller-supplied interrupt response bypasses the node cache (fix e03df3f); interrupts are async only — the sync runner registers no executor for InterruptNode, checked below",
     "PauseExecution": "interrupts are async only",
     "execute_one": "per-node coroutine of the async superstep",
     "iscoroutine": "awaiting a returned awaitable (async runner supports callables returning awaitables)",
@@ -292,6 +293,18 @@ def run(ctx) -> None:
     check_first_failure(ctx, "C02.R4")
 
     # ---- R5 -------------------------------------------------------------------
+    # premise of the 'interrupts are async only' exemptions below: the sync runner registers no executor for
+    # InterruptNode (its supported node types are the registry's keys), the async runner does
+    def _registers_interrupt(cls_q: str) -> bool:
+        ci_ = db.cls(cls_q)
+        for lit in db.registry_literals(ci_, "_executors"):
+            for k in lit.keys:
+                if k is not None and src(k).split(".")[-1] == "InterruptNode":
+                    return True
+        return False
+
+    s_int, a_int = _registers_interrupt("runners.sync.runner.SyncRunner"), _registers_interrupt("runners.async_.runner.AsyncRunner")
+    rep.add("C02.R5", "interrupts-async-only", a_int and not s_int, db.cls("runners.sync.runner.SyncRunner").loc(), "InterruptNode has an executor in the async runner only (premise of the interrupt-related one-sided extras)" if a_int and not s_int else "the sync runner registers an InterruptNode executor (or the async one does not): the interrupt-related one-sided extras of the async siblings are no longer justified")
     pairs: list[tuple[str, list[FuncInfo], list[FuncInfo]]] = []
     sync_ss = [s for s in sss if not s.is_async]
     async_ss = [s for s in sss if s.is_async]
